@@ -24,13 +24,15 @@ M == INSTANCE LFRicHalo WITH MaxH <- 0, cont <- FALSE, annexedOn <- FALSE,
 
 ContSet(c) == IF c.cont = "c" THEN {TRUE} ELSE IF c.cont = "d" THEN {FALSE}
               ELSE BOOLEAN
-Valuations(c, h) == [H : {h}, v : [1..c.nv -> 1..h]]
+\* a stencil extent passed as a variable may be 0 (the stencil is then the cell
+\* itself; the docstring of LFRicHaloExchange.required() says so as well)
+Valuations(c, h) == [H : {h}, v : [1..c.nv -> 0..h]]
 
 \* every depth of the case exists on a mesh of depth val.H
 StepAdm(s, val) ==
   CASE s.k \in {"hex", "hexs", "hexf"} ->
-         /\ M!Eval(s.e, val) \in 1..val.H
-         /\ M!Guarded(s) => M!Eval(s.g, val) \in 1..val.H
+         /\ M!Eval(s.e, val) \in 0..val.H
+         /\ M!Guarded(s) => M!Eval(s.g, val) \in 0..val.H
     [] s.k = "clean" -> M!Eval(s.e, val) \in 0..val.H
     [] s.k = "loop"  ->
          /\ M!Depth(s, val) \in 0..val.H
